@@ -484,6 +484,31 @@ func c10Gen(tier string, rng *rand.Rand, emit func(Case)) {
 	// packet level: all header values incl. length < 8 (c14.go)
 	rdrawGen(tier, rng, emit)
 	rdconnGen(tier, rng, emit)
+	// a message that ends inside a format package (or whose format names a data type that does not exist),
+	// then a message that starts with the data package such a format would describe: the half-read format
+	// is not what the data package is read against
+	if rows := collectRowFields(tier, rng); len(rows) > 0 {
+		nb := 60
+		if tier == "thorough" {
+			nb = 600
+		}
+		for i := 0; i < nb; i++ {
+			rf := rows[rng.Intn(len(rows))]
+			c := codecRegistry[rf[0]]
+			ctx := c.CtxFor(rf[1:])
+			row, ok := c.SpecEnc(rf[1:])
+			if !ok || len(ctx) < 8 || len(row) > 2000 {
+				continue
+			}
+			next := append(append([]byte{}, row...), wDone(0xFD, 0, 0, 1)...)
+			for _, cut := range []int{len(ctx) - 1, len(ctx) - 2, 4 + rng.Intn(len(ctx)-4), 3 + rng.Intn(len(ctx)-3)} {
+				emit(Case{Line: fmt.Sprintf("rx 0 0 b1:%s b1:%s", hx(ctx[:cut]), hx(next)), Kind: "broken-format-then-data"})
+			}
+			bad := append([]byte{}, ctx...)
+			bad[len(bad)-1-rng.Intn(3)] = 0xFA // towards the end: the data type / status bytes of the last column
+			emit(Case{Line: fmt.Sprintf("rx 0 0 b1:%s b1:%s", hx(bad), hx(next)), Kind: "broken-format-then-data"})
+		}
+	}
 	// value level: every data type with every data length 0..255 (c10values.go)
 	c10ValueGen(tier, rng, emit)
 }
